@@ -18,7 +18,7 @@ import (
 )
 
 type spec struct {
-	Handler string // instant | yield | short | long | blocked
+	Handler string // instant | yield | short | long | blocked | panic | error (the last two end at once, with a panic / an error)
 	N       int    // messages emitted by the subscriber
 	Closers int
 	Gated   bool // the subscriber starts emitting only after Running() (else immediately)
@@ -81,6 +81,12 @@ func body(sp spec) {
 			<-never
 		}
 		vs.Observe("end %s", m.UUID)
+		switch sp.Handler {
+		case "panic":
+			panic("handler panic")
+		case "error":
+			return nil, hx.ErrHandler
+		}
 		return hx.Outputs(m, 1), nil
 	})
 	go func() {
@@ -306,4 +312,7 @@ func init() {
 		add(reg.Thorough, 40, spec{Handler: h, N: 2, Closers: 1, C: 1}, 2, 0)
 	}
 	add(reg.Quick, 10, spec{Handler: "yield", N: 1, Closers: 1, Gated: true, C: 1}, 2, 0)
+	// invocations that end with a panic or an error are settled (Nack) before Close returns nil, too
+	add(reg.Quick, 10, spec{Handler: "panic", N: 1, Closers: 1, C: 1}, 2, 0)
+	add(reg.Thorough, 10, spec{Handler: "error", N: 1, Closers: 1, C: 1}, 2, 0)
 }
